@@ -128,6 +128,8 @@ impl SegmentLogWriter {
 
     /// Write a batch of bytes to the log file and return the new file position.
     async fn write_batch(&mut self, batch_to_write: RetainedMessageBatch) -> Result<(), IggyError> {
+        #[cfg(feature = "verif")]
+        let _verif = crate::verif::fs_event_on_drop("log_write", &self.file_path);
         if let Some(ref mut file) = self.file {
             let header = batch_to_write.header_as_bytes();
             let batch_bytes = batch_to_write.bytes;
